@@ -251,6 +251,27 @@ let handle (toks : string list) (impl : string list) : string * string =
           show_verdict (judge_returned cfg true (obs3 rest) None None (n_of_int 0))
         | _ -> "fails:-") in
     (m, v)
+  | "plutus" ->
+    (* no size model for Plutus witness sets: the observation is judged, not predicted *)
+    let mts = num c in
+    let cfg = { c_cpb = nn "4310"; c_max_value_size = nn "5000"; c_max_tx_size = mts } in
+    let v = (match impl with
+        | [] -> "na"
+        | [_; f; l; b; t; u] ->
+          let strip pre x = let n = String.length pre in String.sub x n (String.length x - n) in
+          let returned = (strip "B=" b = "ok") || (strip "T=" t = "ok") || (strip "U=" u = "ok") in
+          let len = nn (strip "L=" l) in
+          (match strip "F=" f with
+           | "err" -> show_verdict (judge_returned cfg returned [] None None len)
+           | fs ->
+             let full = nn fs in
+             (* within the limit, and what full_size() measures covers what is handed out *)
+             (match judge_returned cfg returned [] None (Some full) len,
+                    judge_returned { c_cpb = cfg.c_cpb; c_max_value_size = cfg.c_max_value_size; c_max_tx_size = full } returned [] None None len with
+              | Holds, Holds -> "holds"
+              | _ -> "fails:-"))
+        | _ -> "fails:-") in
+    ("skip " ^ String.concat " " impl, v)
   | "txsize" ->
     let mts = num c in
     let cfg = { c_cpb = nn "4310"; c_max_value_size = nn "5000"; c_max_tx_size = mts } in
